@@ -40,3 +40,17 @@ package middlewares
 //@   frame none
 //@ func wrapBodyReader
 //@   frame none
+
+// ---- C02 / C06: the chain of body readers ---------------------------------------------------------
+// The verifying readers (signature at end of stream, aws-chunked decoding, Content-MD5) are stacked by
+// wrapBodyReader only: it wraps the reader that is already installed (or the raw body stream when none
+// is) and installs the result. No middleware installs a body reader directly.
+//@ func wrapBodyReader
+//@   at-call dynamic {C02,C06} [wraps-the-installed-reader] requires (ok ==> $0 == ctx.Locals("body-reader")) && (!ok ==> $0 == ctx.Request().BodyStream())
+//@   at-call fiber.Ctx.Locals {C02,C06} [installs-the-wrapper] when len($2) > 0 :: requires $1 == iface("body-reader") && len($2) == 1 && $2[0] == result("dynamic", 0)
+//@ func VerifyMD5Body$1
+//@   at-call? fiber.Ctx.Locals {C02,C06} [body-reader-only-through-wrapBodyReader] requires !($1 == iface("body-reader") && len($2) > 0)
+//@ func VerifyV4Signature$1
+//@   at-call? fiber.Ctx.Locals {C02,C06} [body-reader-only-through-wrapBodyReader] requires !($1 == iface("body-reader") && len($2) > 0)
+//@ func VerifyPresignedV4Signature$1
+//@   at-call? fiber.Ctx.Locals {C02,C06} [body-reader-only-through-wrapBodyReader] requires !($1 == iface("body-reader") && len($2) > 0)
